@@ -29,6 +29,11 @@ impl Corpus {
         if files.len() < 10 {
             return Err(format!("corpus at {dir} has only {} files", files.len()));
         }
+        // two synthetic full-featured maps (every optional flag set, every section and object kind present), so that the
+        // offset sweeps see every kind of output line; sorted after the bundled files by name
+        for (i, m) in [0, 2].into_iter().enumerate() {
+            files.push((format!("~synthetic-full-{i}.osu"), synthetic_full(m).into_bytes()));
+        }
         let small = (0..files.len()).filter(|&i| files[i].1.len() <= 8192).collect();
         let large = (0..files.len()).filter(|&i| files[i].1.len() > 8192).collect();
         Ok(Corpus { files, small, large })
@@ -321,7 +326,25 @@ pub fn corrupt_record_partial(rng: &mut Rng, l: &str) -> Option<String> {
     Some(out)
 }
 
-pub const NOISE_LINES: &[&str] = &["", "   ", "\t", "// comment", "  // indented comment", "[Unknown]", " [General]", "[General] // x", "[]", "[HitObjects", "garbage", "a:b:c", "\u{3000}", "x\ry"];
+/// Characters that break assumptions: case mapping changes the UTF-8 length (U+0130, U+1E9E, U+212A, U+212B, U+0149),
+/// combining / zero-width / bidi marks, Unicode line separators, non-characters, the last scalar.
+pub const SPECIAL_CHARS: &[&str] = &["\u{130}", "\u{1E9E}", "\u{212A}", "\u{212B}", "\u{149}", "\u{DF}", "\u{FB03}", "\u{301}", "\u{200B}", "\u{200D}", "\u{202E}", "\u{2028}", "\u{2029}", "\u{85}", "\u{B}", "\u{C}", "\u{0}", "\u{FFFF}", "\u{FFFE}", "\u{10FFFF}", "\u{FEFF}", "\u{3A3}", "\u{1F1E6}\u{1F1FA}"];
+
+/// L6: insert a special character into a random line, biased to the very start of the line.
+pub fn insert_special_char(rng: &mut Rng, text: &str) -> String {
+    let mut lines: Vec<String> = text.split('\n').map(str::to_string).collect();
+    if lines.is_empty() {
+        return text.to_string();
+    }
+    let i = if rng.chance(1, 3) { 0 } else { rng.below(lines.len()) };
+    let l = &mut lines[i];
+    let pos: Vec<usize> = l.char_indices().map(|(k, _)| k).chain(std::iter::once(l.len())).collect();
+    let at = if rng.chance(1, 2) { 0 } else { *rng.pick(&pos) };
+    l.insert_str(at, *rng.pick(SPECIAL_CHARS));
+    lines.join("\n")
+}
+
+pub const NOISE_LINES: &[&str] = &["", "   ", "\t", "// comment", "  // indented comment", "[Unknown]", " [General]", "[General] // x", "[TimingPoints] // foo", "[HitObjects]// x", "[Events] //", "[Colours]  // c", "[Metadata] // m", "[]", "[HitObjects", "garbage", "a:b:c", "\u{3000}", "x\ry"];
 
 // ------------------------------------------------------------------------------------------ structured generator
 
@@ -473,6 +496,8 @@ pub fn gen_osu(rng: &mut Rng) -> String {
         1 => o.push_str(&format!("osu file format v{}{nl}", rng.pick(HOSTILE))),
         2 => o.push_str(&format!("{nl}{nl}osu file format v{}{nl}", rng.range(3, 14))),
         3 => o.push_str(&format!("osu file format v128{nl}")),
+        4 => o.push_str(&format!("{nl}// exported by a tool{nl}osu file format v{}{nl}", rng.range(3, 13))),
+        5 => o.push_str(&format!("//{nl}{nl}osu file format v{}{nl}", rng.range(3, 13))),
         _ => o.push_str(&format!("osu file format v{}{nl}", rng.range(3, 14))),
     }
     let mut order: Vec<&str> = SECTIONS.to_vec();
@@ -604,6 +629,13 @@ pub fn gen_osu(rng: &mut Rng) -> String {
     o
 }
 
+/// A hand-written map that sets every optional field the encoder can write.
+pub fn synthetic_full(mode: i64) -> String {
+    format!(
+        "osu file format v14\n\n[General]\nAudioFilename: audio file.mp3\nAudioLeadIn: 500\nPreviewTime: 12345\nCountdown: 2\nSampleSet: Soft\nSampleVolume: 70\nStackLeniency: 0.4\nMode: {mode}\nLetterboxInBreaks: 1\nSpecialStyle: 1\nWidescreenStoryboard: 1\nEpilepsyWarning: 1\nSamplesMatchPlaybackRate: 1\nCountdownOffset: 2\n\n[Editor]\nBookmarks: 1000,2000,3000\nDistanceSpacing: 1.5\nBeatDivisor: 8\nGridSize: 16\nTimelineZoom: 2.5\n\n[Metadata]\nTitle:Synthetic: full // featured\nTitleUnicode:\u{5408}\u{6210}\nArtist:rosu-sim\nArtistUnicode:\u{30B7}\u{30DF}\nCreator:verif\nVersion:Everything\nSource:none\nTags:a b c\nBeatmapID:123456\nBeatmapSetID:654321\n\n[Difficulty]\nHPDrainRate:6.5\nCircleSize:4.2\nOverallDifficulty:8.3\nApproachRate:9.1\nSliderMultiplier:1.7\nSliderTickRate:2\n\n[Events]\n0,0,\"bg image.jpg\",0,0\nVideo,-120,\"intro.mp4\"\n2,5000,7000\n2,20000,23000\n\n[TimingPoints]\n0,400,4,2,1,70,1,0\n1000,-50,4,2,1,70,0,1\n2000,-133.33,4,3,2,40,0,0\n4000,300,3,1,0,100,1,8\n4000,-80,3,1,0,100,0,1\n9000,NaN,4,1,0,100,0,0\n\n[Colours]\nCombo1 : 255,0,0\nCombo2 : 0,255,0\nCombo3 : 0,0,255\nSliderBorder : 200,200,200\nSliderTrackOverride : 10,20,30\n\n[HitObjects]\n64,64,500,5,2,1:2:3:60:custom.wav\n128,128,1000,2,4,B|200:200|300:100|300:100|L|350:50,2,220.5,2|4|8,1:2|0:0|3:1,2:1:4:50:\n256,192,3000,12,8,4500,0:0:0:0:\n100,300,9000,6,0,P|150:350|200:300,1,110\n300,100,10000,2,0,C|320:120|340:90|360:140,3,150,0|2|0|2,0:0|1:1|2:2|3:3,0:0:0:0:\n400,50,12000,128,2,12800:1:0:0:0:\n50,50,14000,1,0\n"
+    )
+}
+
 /// Rewrite (or insert) the `Mode:` line.
 pub fn set_mode(text: &str, mode: i64) -> String {
     let mut out = String::with_capacity(text.len() + 16);
@@ -664,9 +696,14 @@ pub fn record_faults(rng: &mut Rng, text: &str, n: usize) -> (String, Vec<&'stat
                     applied.push("L4-reorder");
                 }
             }
-            _ => {
+            8 => {
                 lines.insert(i, rng.pick(NOISE_LINES).to_string());
                 applied.push("L5-noise");
+            }
+            _ => {
+                let t = insert_special_char(rng, &lines.join("\n"));
+                lines = t.split('\n').map(str::to_string).collect();
+                applied.push("L6-special-char");
             }
         }
     }
